@@ -1,10 +1,11 @@
-From Verif Require Import Common Json JsonText C12_Model C12_Spec C12_ConcModel C12_ConcSpec.
+From Verif Require Import Common Json JsonText C12_Model C12_Spec C12_ConcModel C12_ConcSpec C12_FsModel C12_FsSpec.
 Open Scope N_scope.
 
-(* two case classes: one execution driven through the operator (input, observation), and many
-   executions of Hook.Run at the same time (C12_ConcModel / C12_ConcSpec) *)
+(* three case classes: one execution driven through the operator (input, observation); many
+   executions of Hook.Run at the same time (C12_ConcModel / C12_ConcSpec); one execution driven through
+   the operator whose hook writes each output in a way of its own, in chunks (C12_FsModel / C12_FsSpec) *)
 Definition run_case := (input * observation)%type.
-Inductive case := CRun (c : run_case) | CConc (ci : cinput) (o : cobs).
+Inductive case := CRun (c : run_case) | CConc (ci : cinput) (o : cobs) | CWays (w : winput) (o : observation).
 
 (* the model's outcome in the observation's vocabulary; the OS facts are taken from the
    implementation's observation (they are not modelled), and so is the presence of the probe
@@ -64,6 +65,56 @@ Definition agrees_run (c : run_case) : bool :=
   && Bool.eqb (ob_foreign_touched m) (ob_foreign_touched o)
   && negb (ob_bad o).
 
+(* ------------------------------------------------------------------ the ways-of-writing class *)
+
+(* the patch documents the harness writes (internal/c12: content("patch", kind)); YAML is outside the model,
+   this table is the oracle [cls] of C12_FsModel / C12_FsSpec for the cases *)
+Definition patch_valid_bytes : bytes :=
+  [123; 34; 111; 112; 101; 114; 97; 116; 105; 111; 110; 34; 58; 34; 67; 114; 101; 97; 116; 101; 79; 114; 85; 112; 100; 97; 116; 101; 34; 44; 34; 111; 98; 106; 101; 99; 116; 34; 58; 123; 34; 97; 112; 105; 86; 101; 114; 115; 105; 111; 110; 34; 58; 34; 118; 49; 34; 44; 34; 107; 105; 110; 100; 34; 58; 34; 67; 111; 110; 102; 105; 103; 77; 97; 112; 34; 44; 34; 109; 101; 116; 97; 100; 97; 116; 97; 34; 58; 123; 34; 110; 97; 109; 101; 34; 58; 34; 99; 49; 50; 34; 44; 34; 110; 97; 109; 101; 115; 112; 97; 99; 101; 34; 58; 34; 100; 101; 102; 97; 117; 108; 116; 34; 125; 44; 34; 100; 97; 116; 97; 34; 58; 123; 34; 107; 34; 58; 34; 118; 34; 125; 125; 125; 10].
+Definition patch_truncated_bytes : bytes :=
+  [123; 34; 111; 112; 101; 114; 97; 116; 105; 111; 110; 34; 58; 34; 67; 114; 101; 97; 116; 101; 79; 114; 85; 112; 100; 97; 116; 101; 34; 44; 34; 111; 98; 106; 101; 99; 116; 34; 58; 123; 34; 97; 112; 105; 86; 101; 114].
+Definition patch_wrongtype_bytes : bytes :=
+  [123; 34; 111; 112; 101; 114; 97; 116; 105; 111; 110; 34; 58; 34; 78; 111; 83; 117; 99; 104; 79; 112; 101; 114; 97; 116; 105; 111; 110; 34; 44; 34; 107; 105; 110; 100; 34; 58; 53; 125; 10].
+Definition patch_table : list (bytes * fkind) :=
+  [(patch_valid_bytes, FValid); (patch_truncated_bytes, FTruncated); (patch_wrongtype_bytes, FWrongType)].
+Definition cls_patch (b : bytes) : fkind :=
+  match b with
+  | [] => FEmpty
+  | _ => match find (fun e => bytes_eqb (fst e) b) patch_table with
+         | Some e => snd e
+         | None => FText b          (* never generated: a text in the patch position is outside the model *)
+         end
+  end.
+
+(* as [model_run_obs], with the execution of C12_FsModel: what the operator reads back is what is at the
+   paths when the hook has done [fi_ops] *)
+Definition model_fs_obs (cls : bytes -> fkind) (i : finput) (o : observation) : observation :=
+  let m := exec_fs cls i in
+  let ri := read_back cls i in
+  mkOb (o_started m) (ob_cwd_is_hook_dir o) (ob_env_ok o) (ob_context_matches o) (ob_files_empty o)
+       (ob_paths_distinct o) (ob_tmp_during o)
+       (if o_success m then 0 else 1)
+       (o_remaining m)
+       (if o_metric_unknown m then ob_metric_applied o else o_metric_applied m)
+       (o_patch_applied m) false
+       (if o_started m then repeat (env_view ri (query_vars ri)) (if fi_concurrent i then 2 else 1) else [])
+       (o_started m && foreign_written ri).
+Definition model_ways_obs (c : winput * observation) : observation :=
+  model_fs_obs cls_patch (finput_of (fst c)) (snd c).
+
+Definition agrees_ways (w : winput) (o : observation) : bool :=
+  let m := model_ways_obs (w, o) in
+  Bool.eqb (ob_started m) (ob_started o)
+  && N.eqb (ob_status m) (ob_status o)
+  && (if ob_started o then N.eqb (ob_tmp_after m) (ob_tmp_after o)
+      else Bool.eqb (N.eqb (ob_tmp_after m) 0) (N.eqb (ob_tmp_after o) 0))
+  && Bool.eqb (ob_metric_applied m) (ob_metric_applied o)
+  && Bool.eqb (ob_patch_applied m) (ob_patch_applied o)
+  && (if ob_started o then N.eqb (ob_tmp_during o) (if wi_concurrent w then 10 else 5) else true)
+  && views_agree (ob_envs m) (ob_envs o)
+  && Bool.eqb (ob_foreign_touched m) (ob_foreign_touched o)
+  && negb (ob_bad o).
+
 (* ------------------------------------------------------------------ the concurrent class *)
 
 (* The model's observation of execution number e of a case, in closed form.  That it IS what the
@@ -105,11 +156,15 @@ Definition agrees_conc (ci : cinput) (o : cobs) : bool :=
 
 Inductive mobs := MRun (o : observation) | MConc (o : cobs).
 Definition model_obs (c : case) : mobs :=
-  match c with CRun c => MRun (model_run_obs c) | CConc ci _ => MConc (model_conc_obs ci) end.
+  match c with
+  | CRun c => MRun (model_run_obs c)
+  | CConc ci _ => MConc (model_conc_obs ci)
+  | CWays w o => MRun (model_ways_obs (w, o))
+  end.
 Definition agrees (c : case) : bool :=
-  match c with CRun c => agrees_run c | CConc ci o => agrees_conc ci o end.
+  match c with CRun c => agrees_run c | CConc ci o => agrees_conc ci o | CWays w o => agrees_ways w o end.
 Definition holds (c : case) : bool :=
-  match c with CRun c => P (fst c) (snd c) | CConc ci o => P_conc ci o end.
+  match c with CRun c => P (fst c) (snd c) | CConc ci o => P_conc ci o | CWays w o => P_ways cls_patch w o end.
 
 Definition mismatches (cs : list case) : list N := indices_where (fun c => negb (agrees c)) cs.
 Definition spec_violations (cs : list case) : list N := indices_where (fun c => negb (holds c)) cs.
